@@ -58,6 +58,55 @@ type ctlCase struct {
 	Entry   int
 	Chunks  []int
 	Key     [4]byte // mask of the incoming frame (server side)
+	EOFWD   bool    // the source returns its last chunk together with io.EOF
+	// Fault: the source ends after K (< len(Payload)) payload bytes of the control
+	// frame, with tx.ErrInjected (faultError) or with a plain EOF (faultCut).
+	Fault int
+	K     int
+}
+
+const (
+	faultNone = iota
+	faultError
+	faultCut
+)
+
+var faultNames = [...]string{"", "error after k payload bytes", "stream ends after k payload bytes"}
+
+// hasSource: entry points that read the payload from a source that can fail.
+func hasSource(e int) bool {
+	switch e {
+	case eHandleRaw, eHandlePlain, eFrameTop, eFrameInter, eReadDataTop, eReadDataInter:
+		return true
+	}
+	return false
+}
+
+// faultApplies says which (entry, opcode, fault) combinations have a defined expectation here.
+// A plain EOF inside a ping/pong payload is only used where the library itself can see the
+// truncation (top-level frame of a Reader); handing ControlHandler a Src shorter than h.Length
+// breaks its precondition, and the intermediate-frame variant is C16's listed finding.
+func faultApplies(e int, op byte, fault int) bool {
+	if !hasSource(e) {
+		return false
+	}
+	if fault == faultCut && op != ref.OpClose {
+		return e == eFrameTop || e == eReadDataTop
+	}
+	return true
+}
+
+// src builds the source for data; at is the offset of the control frame's payload in data.
+func (c ctlCase) src(data []byte, at int) *tx.Src {
+	if c.Fault != faultNone {
+		data = data[:at+c.K]
+	}
+	s := tx.NewSrc(data, c.Chunks)
+	s.EOFWithData = c.EOFWD
+	if c.Fault == faultError {
+		s.End = tx.ErrInjected
+	}
+	return s
 }
 
 type ctlDesc struct {
@@ -68,12 +117,16 @@ type ctlDesc struct {
 	Entry   string `json:"entry"`
 	Chunks  []int  `json:"src_chunks,omitempty"`
 	Key     string `json:"mask,omitempty"`
+	EOFWD   bool   `json:"eof_with_data,omitempty"`
+	Fault   string `json:"fault,omitempty"`
+	K       int    `json:"k,omitempty"`
 }
 
 var opNames = map[byte]string{ref.OpPing: "ping", ref.OpPong: "pong", ref.OpClose: "close"}
 
 func (c ctlCase) desc() ctlDesc {
-	d := ctlDesc{Op: opNames[c.Op], Payload: fmt.Sprintf("%x", c.Payload), Len: len(c.Payload), Side: "client", Entry: entryNames[c.Entry], Chunks: c.Chunks}
+	d := ctlDesc{Op: opNames[c.Op], Payload: fmt.Sprintf("%x", c.Payload), Len: len(c.Payload), Side: "client", Entry: entryNames[c.Entry], Chunks: c.Chunks,
+		EOFWD: c.EOFWD, Fault: faultNames[c.Fault], K: c.K}
 	if c.Server {
 		d.Side = "server"
 		d.Key = fmt.Sprintf("%x", c.Key)
@@ -108,6 +161,7 @@ func (c ctlCase) run() (written []byte, err error, trouble string) {
 	rec := tx.NewRec()
 	state := c.state()
 	in := c.incoming()
+	hdrLen := len(in.Encode()) - len(c.Payload)
 	// The header as the header check accepted it.
 	h := ws.Header{Fin: true, OpCode: ws.OpCode(c.Op), Length: int64(len(c.Payload)), Masked: c.Server, Mask: c.Key}
 	switch c.Entry {
@@ -116,19 +170,20 @@ func (c ctlCase) run() (written []byte, err error, trouble string) {
 		if c.Server {
 			wirePayload = ref.Mask(c.Payload, c.Key, 0)
 		}
-		err = wsutil.ControlHandler{Src: tx.NewSrc(wirePayload, c.Chunks), Dst: rec, State: state}.Handle(h)
+		err = wsutil.ControlHandler{Src: c.src(wirePayload, 0), Dst: rec, State: state}.Handle(h)
 	case eHandlePlain:
-		err = wsutil.ControlHandler{Src: tx.NewSrc(c.Payload, c.Chunks), Dst: rec, State: state, DisableSrcCiphering: true}.Handle(h)
+		err = wsutil.ControlHandler{Src: c.src(c.Payload, 0), Dst: rec, State: state, DisableSrcCiphering: true}.Handle(h)
 	case eFrameTop:
-		rd := &wsutil.Reader{Source: tx.NewSrc(in.Encode(), c.Chunks), State: state}
+		rd := &wsutil.Reader{Source: c.src(in.Encode(), hdrLen), State: state}
 		hdr, herr := rd.NextFrame()
 		if herr != nil {
 			return nil, nil, fmt.Sprintf("NextFrame on a valid control frame: %v", herr)
 		}
 		err = wsutil.ControlFrameHandler(rec, state)(hdr, rd)
 	case eFrameInter:
-		wire := ref.EncodeAll([]ref.Frame{c.dataFrame(ref.OpText, false, "ab"), in, c.dataFrame(ref.OpCont, true, "cd")})
-		rd := &wsutil.Reader{Source: tx.NewSrc(wire, c.Chunks), State: state, OnIntermediate: wsutil.ControlFrameHandler(rec, state)}
+		first := c.dataFrame(ref.OpText, false, "ab")
+		wire := ref.EncodeAll([]ref.Frame{first, in, c.dataFrame(ref.OpCont, true, "cd")})
+		rd := &wsutil.Reader{Source: c.src(wire, len(first.Encode())+hdrLen), State: state, OnIntermediate: wsutil.ControlFrameHandler(rec, state)}
 		if _, herr := rd.NextFrame(); herr != nil {
 			return nil, nil, fmt.Sprintf("NextFrame on a valid text frame: %v", herr)
 		}
@@ -147,7 +202,7 @@ func (c ctlCase) run() (written []byte, err error, trouble string) {
 			err = wsutil.HandleServerControlMessage(rec, msg)
 		}
 	case eReadMessage:
-		msgs, rerr := wsutil.ReadMessage(tx.NewSrc(in.Encode(), c.Chunks), state, nil)
+		msgs, rerr := wsutil.ReadMessage(c.src(in.Encode(), hdrLen), state, nil)
 		if rerr != nil || len(msgs) != 1 {
 			return nil, nil, fmt.Sprintf("ReadMessage on a valid control frame: %d messages, err=%v", len(msgs), rerr)
 		}
@@ -155,14 +210,15 @@ func (c ctlCase) run() (written []byte, err error, trouble string) {
 	case eReadDataTop:
 		wire := ref.EncodeAll([]ref.Frame{in, c.dataFrame(ref.OpText, true, "hi")})
 		var data []byte
-		data, _, err = wsutil.ReadData(tx.RW{Reader: tx.NewSrc(wire, c.Chunks), Writer: rec}, state)
+		data, _, err = wsutil.ReadData(tx.RW{Reader: c.src(wire, hdrLen), Writer: rec}, state)
 		if err == nil && string(data) != "hi" {
 			trouble = fmt.Sprintf("message after the control frame delivered as %q", data)
 		}
 	case eReadDataInter:
-		wire := ref.EncodeAll([]ref.Frame{c.dataFrame(ref.OpBinary, false, "ab"), in, c.dataFrame(ref.OpCont, true, "cd")})
+		first := c.dataFrame(ref.OpBinary, false, "ab")
+		wire := ref.EncodeAll([]ref.Frame{first, in, c.dataFrame(ref.OpCont, true, "cd")})
 		var data []byte
-		data, _, err = wsutil.ReadData(tx.RW{Reader: tx.NewSrc(wire, c.Chunks), Writer: rec}, state)
+		data, _, err = wsutil.ReadData(tx.RW{Reader: c.src(wire, len(first.Encode())+hdrLen), Writer: rec}, state)
 		if err == nil && string(data) != "abcd" {
 			trouble = fmt.Sprintf("message around the control frame delivered as %q", data)
 		}
@@ -236,6 +292,16 @@ const (
 // judge applies the oracle. It returns the class label of the outcome and a
 // violation description or "".
 func judge(c ctlCase, written []byte, err error) (class string, bad string) {
+	if c.Fault != faultNone {
+		// The frame never arrived whole: no reply may be built from a part of its payload.
+		if len(written) != 0 {
+			return "", fmt.Sprintf("%d of %d payload bytes arrived before the source failed, yet %x was written (error returned: %v)", c.K, len(c.Payload), written, err)
+		}
+		if err == nil && c.Op != ref.OpPong {
+			return "", fmt.Sprintf("%d of %d payload bytes arrived before the source failed, but no error was reported", c.K, len(c.Payload))
+		}
+		return fmt.Sprintf("fault/%s/%s/nothing-written", opNames[c.Op], faultNames[c.Fault]), ""
+	}
 	frames, rest, perr := ref.ParseFrames(written)
 	if perr != nil {
 		return "", fmt.Sprintf("bytes written are not a sequence of whole frames: %v (rest %x of %x)", perr, rest, written)
@@ -344,6 +410,9 @@ func nonTrivial(c ctlCase) bool {
 	if len(c.Payload) == 0 {
 		return false
 	}
+	if c.Fault != faultNone {
+		return c.K > 0
+	}
 	invalidClose := c.Op == ref.OpClose && (len(c.Payload) == 1 || ref.ClosePayload(c.Payload) == ref.CloseReject)
 	return !c.Server || invalidClose
 }
@@ -372,7 +441,7 @@ func note(c ctlCase) {
 	if !nonTrivial(c) {
 		return
 	}
-	hx.NonTrivial(hx.Hash("ctl", c.Op, len(c.Payload), c.Server, c.Entry, codeClass(c)), func() interface{} { return c.desc() })
+	hx.NonTrivial(hx.Hash("ctl", c.Op, len(c.Payload), c.Server, c.Entry, codeClass(c), c.Fault, c.K), func() interface{} { return c.desc() })
 }
 
 // one runs and judges a case; it returns the outcome class and the violation or "".
@@ -446,22 +515,24 @@ func TestPingPongAllLengths(t *testing.T) {
 			for _, server := range []bool{true, false} {
 				for e := 0; e < numEntries; e++ {
 					for ci, chunks := range chunkPlans {
-						c := ctlCase{Op: op, Payload: payloadOf(l, byte(e)), Server: server, Entry: e, Chunks: chunks,
-							Key: [4]byte{byte(l), 0x80 | byte(e), byte(ci), 0x5a}}
-						n++
-						class, bad := one(c)
-						if bad != "" {
-							hx.Failf(t, c.desc(), "%s", bad)
-							return
+						for _, eofwd := range []bool{false, true} {
+							c := ctlCase{Op: op, Payload: payloadOf(l, byte(e)), Server: server, Entry: e, Chunks: chunks,
+								Key: [4]byte{byte(l), 0x80 | byte(e), byte(ci), 0x5a}, EOFWD: eofwd}
+							n++
+							class, bad := one(c)
+							if bad != "" {
+								hx.Failf(t, c.desc(), "%s", bad)
+								return
+							}
+							tl[fmt.Sprintf("%s/server=%v", class, server)]++
 						}
-						tl[fmt.Sprintf("%s/server=%v", class, server)]++
 					}
 				}
 			}
 		}
 	}
 	hx.EvalN(n)
-	hx.Part("ping/pong: payload length 0..125 x side x 9 entry points x 3 transport chunkings", int64(n), true)
+	hx.Part("ping/pong: payload length 0..125 x side x 9 entry points x 3 transport chunkings x last chunk with/without EOF", int64(n), true)
 	tl.flush("enum/")
 }
 
@@ -495,7 +566,7 @@ func TestCloseAllCodes(t *testing.T) {
 				}
 				for e := first; e <= last; e++ {
 					c := ctlCase{Op: ref.OpClose, Payload: p, Server: server, Entry: e, Chunks: chunkPlans[(code+e)%len(chunkPlans)],
-						Key: [4]byte{byte(code), byte(code >> 8), 0xc3, byte(e)}}
+						Key: [4]byte{byte(code), byte(code >> 8), 0xc3, byte(e)}, EOFWD: ((code>>3)+ri+e)&1 == 1}
 					n++
 					class, bad := one(c)
 					if bad != "" {
@@ -550,7 +621,8 @@ func TestCloseBoundaries(t *testing.T) {
 		for _, server := range []bool{true, false} {
 			for e := 0; e < numEntries; e++ {
 				for ci, chunks := range chunkPlans[:2] {
-					c := ctlCase{Op: ref.OpClose, Payload: p, Server: server, Entry: e, Chunks: chunks, Key: [4]byte{byte(i), 0x91, byte(ci), byte(e)}}
+					c := ctlCase{Op: ref.OpClose, Payload: p, Server: server, Entry: e, Chunks: chunks, Key: [4]byte{byte(i), 0x91, byte(ci), byte(e)},
+						EOFWD: (i+e+ci)&1 == 1}
 					n++
 					class, bad := one(c)
 					if bad != "" {
@@ -564,6 +636,55 @@ func TestCloseBoundaries(t *testing.T) {
 	}
 	hx.EvalN(n)
 	hx.Part("close: empty, all 256 one-byte payloads, 30 boundary codes x 5 reasons, every length 2..125 x side x 9 entry points x 2 chunkings", int64(n), true)
+	tl.flush("enum/")
+}
+
+// A control frame whose payload does not arrive whole (the source fails or ends
+// after k < L bytes): an error is reported and nothing is written - in
+// particular no pong or close built from a prefix of the payload.
+func TestCutSources(t *testing.T) {
+	rand.Seed(13)
+	tl := tally{}
+	n := 0
+	for li, l := range []int{1, 2, 3, 4, 17, 124, 125} {
+		if !hx.Mine(li) {
+			continue
+		}
+		ks := map[int]bool{0: true, 1: true, 2: true, l / 2: true, l - 1: true}
+		for k := 0; k < l; k++ {
+			if !ks[k] && !hx.Thorough() {
+				continue
+			}
+			for _, op := range []byte{ref.OpPing, ref.OpPong, ref.OpClose} {
+				p := payloadOf(l, byte(k))
+				if op == ref.OpClose {
+					p = append([]byte{0x03, 0xe8}, bytes.Repeat([]byte("r"), l)...)[:l]
+				}
+				for _, server := range []bool{true, false} {
+					for e := 0; e < numEntries; e++ {
+						for _, fault := range []int{faultError, faultCut} {
+							if !faultApplies(e, op, fault) {
+								continue
+							}
+							for v := 0; v < 4; v++ {
+								c := ctlCase{Op: op, Payload: p, Server: server, Entry: e, Chunks: chunkPlans[v&1], EOFWD: v&2 != 0,
+									Key: [4]byte{byte(l), 0xa7, byte(k), byte(e)}, Fault: fault, K: k}
+								n++
+								class, bad := one(c)
+								if bad != "" {
+									hx.Failf(t, c.desc(), "%s", bad)
+									return
+								}
+								tl[class]++
+							}
+						}
+					}
+				}
+			}
+		}
+	}
+	hx.EvalN(n)
+	hx.Part("cut sources: payload lengths {1,2,3,4,17,124,125} x cut after k bytes x opcode x side x 6 entry points with a source x {error, EOF} x chunking x EOF-with-data", int64(n), true)
 	tl.flush("enum/")
 }
 
@@ -617,6 +738,14 @@ func TestRepliesRandom(t *testing.T) {
 			c.Payload = drawClosePayload(t)
 		} else {
 			c.Payload = gen.CtlFrame(t, "ctl", false).Payload
+		}
+		c.EOFWD = rapid.Bool().Draw(t, "eofwd")
+		if len(c.Payload) > 0 && rapid.IntRange(0, 3).Draw(t, "fault?") == 0 {
+			f := rapid.IntRange(faultError, faultCut).Draw(t, "fault")
+			if faultApplies(c.Entry, c.Op, f) {
+				c.Fault = f
+				c.K = rapid.IntRange(0, len(c.Payload)-1).Draw(t, "k")
+			}
 		}
 		hx.Eval()
 		class, bad := one(c)
@@ -680,7 +809,9 @@ func TestReadDataSequences(t *testing.T) {
 			return
 		}
 		rec := tx.NewRec()
-		data, _, err := wsutil.ReadData(tx.RW{Reader: tx.NewSrc(ref.EncodeAll(frames), chunks), Writer: rec}, state)
+		src := tx.NewSrc(ref.EncodeAll(frames), chunks)
+		src.EOFWithData = rapid.Bool().Draw(t, "eofwd")
+		data, _, err := wsutil.ReadData(tx.RW{Reader: src, Writer: rec}, state)
 		replies, rest, perr := ref.ParseFrames(rec.Bytes())
 		if perr != nil {
 			t.Fatalf("replies are not whole frames: %v (rest %x)\nframes: %v", perr, rest, ref.Describe(frames))
